@@ -172,7 +172,10 @@ def comps(pv):
         if it.type == "operator":
             out.append({"t": "op", "x": val})
         elif hasattr(val, "cssText"):
-            out.append({"t": getattr(val, "type", it.type), "x": val.cssText})
+            t, x = getattr(val, "type", it.type), val.cssText
+            if t == "DIMENSION" and (x in ("0", "-0", "+0") or (re.match(r"^[-+]?0*\.?0+[a-z]+$", x.lower()) and not re.match(r".*(deg|rad|grad|s|hz)$", x.lower()))):
+                t, x = "NUMBER", "0"       # a zero length is written unit-less (C18): same denotation
+            out.append({"t": t, "x": x})
         else:
             out.append({"t": str(it.type), "x": str(val)})
     return out
@@ -200,12 +203,12 @@ def project_rule(r):
     if t == "CHARSET_RULE":
         return {"k": "charset", "enc": r.encoding}
     if t == "IMPORT_RULE":
-        return {"k": "import", "href": r.href, "hreftype": r.hreftype or "none", "queries": [q for q in [getattr(m, "value", m).mediaText for m in r.media] if q != "all"],   # no media = all media
+        return {"k": "import", "href": r.href, "hreftype": r.hreftype or ("uri" if r.cssText.lower().startswith("@import url(") else "string"), "queries": [q for q in [getattr(m, "value", m).mediaText for m in r.media] if q != "all"],   # no media = all media
                 "name": r.name if r.name else "none"}
     if t == "NAMESPACE_RULE":
         return {"k": "namespace", "prefix": r.prefix, "uri": r.namespaceURI}
     if t == "PAGE_RULE":
-        return {"k": "page", "sel": r.selectorText, "body": body_of(r.style), "margins": [{"name": m.margin, "body": body_of(m.style)} for m in r.cssRules]}
+        return {"k": "page", "sel": r.selectorText, "body": body_of(r.style), "margins": [({"name": m.margin, "body": body_of(m.style)} if m.typeString == "MARGIN_RULE" else project_rule(m)) for m in r.cssRules]}
     if t == "FONT_FACE_RULE":
         return {"k": "fontface", "body": body_of(r.style)}
     if t == "MEDIA_RULE":
